@@ -216,6 +216,32 @@ F32 = lambda *v: struct.pack("<%df" % len(v), *v)  # noqa
 I32 = lambda *v: struct.pack("<%di" % len(v), *v)  # noqa
 
 
+def _readers():
+    """name -> reader(item bytes) -> text decoded by the library at that site"""
+    import io as _io
+
+    from basictdf.basictdf import TdfEntry
+    from basictdf.tdfData3D import MarkerTrack
+    from basictdf.tdfEMG import EMGTrack
+    from basictdf.tdfEvents import Event
+    from basictdf.tdfForce3D import ForceTorqueTrack
+    from basictdf.tdfForcePlatformsCalibration import ForcePlatformInfo
+    from basictdf.tdfOpticalSystem import OpticalChannelData
+
+    S = _io.BytesIO
+    return {
+        "marker.label": lambda b: MarkerTrack._build(S(b), 2).label,
+        "emg.label": lambda b: EMGTrack._build(S(b), 2).label,
+        "force.label": lambda b: ForceTorqueTrack._build(S(b), 2).label,
+        "platform.label": lambda b: ForcePlatformInfo._build(S(b)).label,
+        "event.label": lambda b: Event._build(S(b)).label,
+        "optical.lens": lambda b: OpticalChannelData._build(S(b)).lens_name,
+        "optical.type": lambda b: OpticalChannelData._build(S(b)).camera_type,
+        "optical.name": lambda b: OpticalChannelData._build(S(b)).camera_name,
+        "entry.comment": lambda b: TdfEntry._build(S(b)).comment,
+    }
+
+
 def _sites():
     """name -> (width, writer(text) -> bytes, expected(textfield bytes) -> bytes)"""
     import numpy as np
@@ -306,6 +332,11 @@ def run_sites(ctx, case):
             ctx.fail(f"{site}/refuses-valid", f"{site}: valid text of {len(s)} chars refused: {exc}")
         else:
             want = expected(cp1252.field(s, w))
+            ok, back = ctx.must(lambda: _readers()[site](want), f"{site}/read-back", f"{site}: decoding an item that carries a valid text of {len(s)} chars")
+            if ok and back != s:
+                i = next((k for k in range(min(len(back), len(s))) if back[k] != s[k]), min(len(back), len(s)))
+                ctx.fail(f"{site}/read-back-differs", f"{site}: text of {len(s)} chars reads back differently (first difference at char {i}: "
+                                                      f"{back[i:i + 1]!r} vs {s[i:i + 1]!r}, lengths {len(back)} vs {len(s)})")
             if out != want:
                 ctx.fail(f"{site}/wrong-bytes", f"{site}: text of {len(s)} chars: item bytes differ from the layout "
                                                 f"(len {len(out)} vs {len(want)}; first diff at "
